@@ -1386,6 +1386,9 @@ func (o *ovsdbClient) handleDisconnectNotification() {
 	o.rpcMutex.Lock()
 	if o.options.reconnect && !o.shutdown {
 		o.rpcClient = nil
+		// the connection is gone: Connected() must not keep answering true
+		// until the reconnect has re-established the monitors
+		o.connected = false
 		// endpoints is protected by rpcMutex (UpdateEndpoints can replace it
 		// at any time), read what we need before releasing it
 		lostEndpoint := o.endpoints[0].address
@@ -1426,6 +1429,7 @@ func (o *ovsdbClient) handleDisconnectNotification() {
 
 	// clear connection state
 	o.rpcClient = nil
+	o.connected = false
 	o.rpcMutex.Unlock()
 
 	for _, db := range o.databases {
